@@ -1,5 +1,5 @@
 """C05 core-language programs behave as the reference semantics says."""
-REG_DRAFT = dict(
+REG = dict(
     engine='E1-enum',
     technique='bounded-exhaustive enumeration of every core-fragment program up to a weighted size, executed on the real interpreter and by an independent reference interpreter (differential)',
     text="Every program of the core grammar of gvlib/coregen.py (let/assignment/+=, println(string_repr(e)), if/else, guarded while, for-in, break, continue, return, "
@@ -186,6 +186,25 @@ def features(items):
     return tuple(sorted(feats))
 
 
+INCIDENTAL = frozenset(["+=", "-=", "assign", "assign-outer", "let", "list", "constructor", "tuple", "print", "redeclare",
+                        "string-concat", "bool-op"])
+
+
+def signature_features(feats):
+    """The features that go into a signature: a jump keeps its kind and its target (`break@for`, `return@fun`) but
+    not the chain of blocks in between, and features every program has (plain let, assignment, literals) are left
+    out.  The full set stays in the replay detail."""
+    out = set()
+    for f in feats:
+        if f in INCIDENTAL:
+            continue
+        if "@" in f:
+            kind, path = f.split("@")
+            f = kind + "@" + path.split("/")[-1]
+        out.add(f)
+    return tuple(sorted(out))
+
+
 def jumps_out(t):
     """Does this statement contain a break/continue that targets a loop around it (not one inside it)?"""
     if isinstance(t, tuple):
@@ -312,11 +331,11 @@ def run(ctx):
     samples = {}
 
     def fail(what, feats, cost, src, detail):
-        f = failures.setdefault((what, feats), {"count": 0, "best": None, "detail": None})
+        f = failures.setdefault((what, signature_features(feats)), {"count": 0, "best": None, "detail": None})
         f["count"] += 1
         key = (cost, len(src), src)
         if f["best"] is None or key < f["best"]:
-            f["best"], f["detail"] = key, detail
+            f["best"], f["detail"] = key, dict(detail, all_features="+".join(feats))
 
     for level in range(1, size + 1):
         n_level = 0
